@@ -289,6 +289,11 @@ type c19Ver struct {
 }
 
 func runC19(c *Ctx) {
+	if !crIsWorker() {
+		crIsolated(c, nil)
+		return
+	}
+	defer crWorkerCheckpoint(c)()
 	c.Res.Rule = "settled DBs from random histories (150-400 puts/deletes/batches/large batches/CompactRange/reopen over 20-70 keys incl. the empty key and 0x00/0xff runs; tiny buffers so that several levels exist; the last writes stay in the journal; five comparers; bloom filter on/off; snappy on/off), closed once storage holds exactly the live files. Part A: manifest deleted / CURRENT cleared / manifest truncated at a random offset / manifest replaced by garbage, then leveldb.Recover: must succeed, full scan and every Get equal the plain map, then the DB is used (writes, CompactRange, Close) and reopened with Open with the expected contents. Part B: additionally 1-3 data blocks of live tables get one byte flipped (block boundaries from table.Reader.OffsetOf): Recover must succeed; every returned pair was written for that key at some time; every key whose newest version (value or tombstone, anywhere in the DB) lies outside the damaged blocks is returned with exactly that version; Get agrees with the scan. One evaluation = one recovered image; non-trivial = the DB had >= 2 tables and deletions (part B: at least one entry was in a damaged block); distinct by (history seed, variant, damage)."
 	once := &crSigOnce{}
 	n := c.Scale(700, 20000)
@@ -446,12 +451,10 @@ func c19Recover(c *Ctx, once *crSigOnce, d *c19DB, img *stor.Stor, cs *c19Case, 
 		part = "B"
 	}
 	// D19: a damaged table is rebuilt with the caller's comparer and filter instead of the internal ones;
-	// whether Recover went through that rebuild path is read off its log.
-	var logLines []string
-	img.LogLines = &logLines
-	rebuilt := func() bool {
-		for _, l := range logLines {
-			if strings.Contains(l, "table@recovery rebuilding") {
+	// whether Recover went through that rebuild path is read off the storage operations.
+	rebuilt := func() bool { // a rebuilt table is renamed over the damaged one
+		for _, op := range img.Ops() {
+			if op.Kind == stor.OpRename {
 				return true
 			}
 		}
@@ -468,7 +471,6 @@ func c19Recover(c *Ctx, once *crSigOnce, d *c19DB, img *stor.Stor, cs *c19Case, 
 	}
 	var db *leveldb.DB
 	err, hung := crCall(crWdTimeout, func() (err error) { db, err = leveldb.Recover(img, d.o); return })
-	img.LogLines = nil
 	if vers != nil {
 		c.Res.Count("B_rebuild", fmt.Sprintf("table-rebuilt=%v", rebuilt()))
 	}
